@@ -78,6 +78,10 @@ pub trait ReadValue {
     fn position(&self) -> u64;
 }
 
+/// Maximum size of the buffer allocated by [`ValueReader::read_bytes`] before
+/// any data has been read.
+const MAX_PREALLOC: usize = 1 << 20;
+
 /// A Protocol Buffers primitive reader that returns owned values.
 ///
 /// This implements the [`ReadValue`] trait and returns `Vec` when reading a
@@ -136,8 +140,14 @@ impl<R: BufRead + Seek + Position> ReadValue for ValueReader<R> {
         &mut self,
         len: usize,
     ) -> Result<<Self::Types as FieldTypes>::Bytes, ProtobufError> {
-        let mut buf = vec![0; len];
-        self.inner.read_exact(&mut buf)?;
+        // `len` comes from the input and may exceed the remaining length of
+        // the stream, so don't allocate more than `MAX_PREALLOC` bytes before
+        // the data has actually been read.
+        let mut buf = Vec::with_capacity(len.min(MAX_PREALLOC));
+        let n_read = self.inner.by_ref().take(len as u64).read_to_end(&mut buf)?;
+        if n_read != len {
+            return Err(std::io::Error::from(std::io::ErrorKind::UnexpectedEof).into());
+        }
         Ok(buf)
     }
 
